@@ -617,6 +617,60 @@ def result_through_sites(fe, qual, acc, result_index=0, allowed_callees=()):
                  status='proved' if not bad else 'failed', secs=0, backend='syntactic', reason='; '.join(bad[:3]))]
 
 
+def bound_once_to_call(fe, qual, var, callee):
+    """binding[<function>:<var>]: a site obligation that speaks about the local `var` as "the result of the call of
+    `callee`" is meaningful only if `var` is bound exactly once in the function, by `var = callee(...)`, and is never
+    changed afterwards: no second binding, no augmented assignment, no deletion, no in-place mutation, not a loop /
+    comprehension target, not passed to any callee (only read: `in`, `+`, iteration, len).  Syntactic, from the real AST."""
+    modname, fname = qual.rsplit('.', 1)
+    fn = fe.module(modname).functions[fname]
+    bad = []
+
+    def own_nodes(node):
+        for ch in ast.iter_child_nodes(node):
+            if isinstance(ch, (ast.FunctionDef, ast.AsyncFunctionDef, ast.Lambda, ast.ClassDef)):
+                continue
+            yield ch
+            yield from own_nodes(ch)
+    binds = 0
+    for n in own_nodes(fn):
+        targets = []
+        if isinstance(n, ast.Assign):
+            targets = n.targets
+        elif isinstance(n, (ast.AugAssign, ast.AnnAssign)):
+            targets = [n.target]
+        elif isinstance(n, ast.Delete):
+            targets = n.targets
+        elif isinstance(n, (ast.For, ast.comprehension)):
+            targets = [n.target]
+        elif isinstance(n, ast.NamedExpr):
+            targets = [n.target]
+        for t in targets:
+            for e in ast.walk(t):
+                if isinstance(e, ast.Name) and e.id == var:
+                    v = getattr(n, 'value', None)
+                    f = v.func if isinstance(v, ast.Call) else None
+                    cn = f.id if isinstance(f, ast.Name) else (f.attr if isinstance(f, ast.Attribute) else None)
+                    if isinstance(n, ast.Assign) and t is e and cn == callee:
+                        binds += 1
+                    else:
+                        bad.append('line %d: %s is bound / written other than by %s(...): %s'
+                                   % (n.lineno, var, callee, ast.unparse(n)[:60]))
+        if isinstance(n, ast.Call):
+            f = n.func
+            if isinstance(f, ast.Attribute) and isinstance(f.value, ast.Name) and f.value.id == var and f.attr in MUTATORS:
+                bad.append('line %d: %s.%s(...)' % (n.lineno, var, f.attr))
+            cn = f.id if isinstance(f, ast.Name) else (f.attr if isinstance(f, ast.Attribute) else '')
+            passed = any(isinstance(a, ast.Name) and a.id == var for a in list(n.args) + [k.value for k in n.keywords])
+            if passed and cn not in ('len', 'list', 'tuple', 'enumerate', 'zip', 'str', 'set'):
+                bad.append('line %d: %s is passed to %s(...)' % (n.lineno, var, cn))
+    if binds != 1:
+        bad.append('%s is bound by %s(...) %d times (expected once)' % (var, callee, binds))
+    return [dict(name='%s/binding[%s-is-the-result-of-%s]' % (qual, var, callee), function=qual, lineno=fn.lineno,
+                 kind='proof', status='proved' if not bad else 'failed', secs=0, backend='syntactic',
+                 reason='; '.join(bad[:3]))]
+
+
 MUTABLE_CTORS = {'dict', 'list', 'set', 'defaultdict', 'OrderedDict', 'deque', 'Counter'}
 
 
